@@ -420,6 +420,9 @@ impl Prop for C11 {
                         }
                     };
                     let (points, _log, fired) = hooks::h().fault_off();
+                    if std::env::var("KVH_C11_DEBUG").is_ok() {
+                        eprintln!("op #{i} {op:?}: points {points} fired {fired} result {:?} log {:?}", r.as_ref().map(|x| x.as_ref().map(|_| ()).map_err(|e| e.to_string())).map_err(|c| c.what.clone()), _log.iter().map(|p| format!("{}:{}", p.kind, p.op)).collect::<Vec<_>>());
+                    }
                     match r {
                         Err(c) => return Outcome::Violation { clause: "crash".into(), key: super::crash_key(&c.what), msg: format!("op #{i} {op:?}: {}", c.what) },
                         Ok(res) => {
@@ -439,6 +442,16 @@ impl Prop for C11 {
                                 }
                                 if let Some(o) = step(observe2(&w, &mut client, case, None, false, false), i, op) {
                                     return o;
+                                }
+                                // That observation may have shown (and consumed the allowance for) an
+                                // earlier interrupted reset. If the files are still not at the server's
+                                // session, the reset interrupted just now is yet to show.
+                                if is_reset {
+                                    let stats = w.sim.w().repo().repo_stats().ok().and_then(|s| serde_json::to_value(&s).ok()).unwrap_or_default();
+                                    let on_disk = rrdpc::read_notification(&w.sim.w().repo_dir()).ok().map(|n| n.session);
+                                    if on_disk.as_deref() != stats["session"].as_str() {
+                                        client.reset_pending = true;
+                                    }
                                 }
                                 let _ = res;
                             } else {
